@@ -47,17 +47,23 @@ impl Secp256R1Verifier {
       .try_ec_params()
       .map_err(|_| SignatureVerificationErrorKind::UnsupportedKeyType)?;
 
+    let x: Vec<u8> = jwu::decode_b64(&params.x).map_err(|err| {
+      SignatureVerificationError::new(SignatureVerificationErrorKind::KeyDecodingFailure).with_source(err)
+    })?;
+    let y: Vec<u8> = jwu::decode_b64(&params.y).map_err(|err| {
+      SignatureVerificationError::new(SignatureVerificationErrorKind::KeyDecodingFailure).with_source(err)
+    })?;
+    // Each coordinate is a field element of 32 bytes: coordinates that only add up to 64 bytes (e.g. 31 + 33) would be
+    // cut anew below and denote another key than the Jwk states.
+    if x.len() != 32 || y.len() != 32 {
+      return Err(
+        SignatureVerificationError::new(SignatureVerificationErrorKind::KeyDecodingFailure)
+          .with_custom_message("invalid length of the x and y coordinates"),
+      );
+    }
     // Concatenate x and y coordinates as required by
     // EncodedPoint::from_untagged_bytes.
-    let public_key_bytes: Vec<u8> = jwu::decode_b64(&params.x)
-      .map_err(|err| {
-        SignatureVerificationError::new(SignatureVerificationErrorKind::KeyDecodingFailure).with_source(err)
-      })?
-      .into_iter()
-      .chain(jwu::decode_b64(&params.y).map_err(|err| {
-        SignatureVerificationError::new(SignatureVerificationErrorKind::KeyDecodingFailure).with_source(err)
-      })?)
-      .collect();
+    let public_key_bytes: Vec<u8> = x.into_iter().chain(y).collect();
 
     // The JWK contains the uncompressed x and y coordinates, so we can create the
     // encoded point directly without prefixing an SEC1 tag.
